@@ -486,3 +486,736 @@ def grd3_sequence_filter(P, R, L, rule="GRD-3"):
             ok = bool(os_) and all(o.kind == "call" and o.name in SEQ_SRC for o in os_)
             R.check(rule, NEW_ITER + "|iterator-sequence-provenance", ok, c.where(),
                     "the iterator's sequence_snapshot is the snapshot's or the one read under the mutex", "%s" % sorted({repr(o) for o in os_}))
+
+
+# ------------------------------------------------------------------------------------------- VERD-1 & friends
+from ..rules import Cmp, bool_tests as _bt  # noqa: E402
+from ..dataflow import roots  # noqa: E402
+
+GET_OP = "key::InternalKey::get_operation"
+GET_USER_KEY = "key::InternalKey::get_user_key"
+TABLE_GET = "tables::table::Table::get"
+VERSION_GET = "versioning::version::Version::get"
+TABLE_CACHE_GET = "table_cache::TableCache::get"
+MEM_GET = "memtable::MemTable::get"
+
+
+def enum_value(P, enum_path, variant):
+    for name, val in P.facts.get("enums", {}).get(enum_path, []):
+        if name == variant:
+            return int(val)
+    return None
+
+
+def variant_edges(P, body, enum_path, variant, source_pred):
+    """Edges on which an enum value whose origins satisfy source_pred is known to be `variant`."""
+    val = enum_value(P, enum_path, variant)
+    edges = []
+    if val is not None:
+        for bb in range(body.n):
+            for st in body.blocks[bb]["stmts"]:
+                if st["k"] == "assign" and st["rv"]["k"] == "discr" and not st["pl"]["p"]:
+                    if not source_pred(origins(body, st["rv"]["pl"])):
+                        continue
+                    d = st["pl"]["l"]
+                    for sb in range(body.n):
+                        t = body.term(sb)
+                        if t["k"] == "switch" and t["discr"]["k"] in ("copy", "move") and t["discr"]["pl"]["l"] == d and not t["discr"]["pl"]["p"]:
+                            listed = {int(v): tg for v, tg in t["targets"]}
+                            if val in listed:
+                                edges.append((sb, listed[val]))
+                            else:
+                                # falls into otherwise only if every other variant is listed explicitly
+                                nvar = len(P.facts["enums"].get(enum_path, []))
+                                if len(listed) == nvar - 1:
+                                    edges.append((sb, t["otherwise"]))
+    is_variant = lambda os_: any((o.kind == "agg" and o.name.endswith("::" + variant)) or
+                                 (o.kind == "const" and isinstance(o.name, str) and variant in o.name) for o in os_)
+    for c in comparisons(body):
+        edges += c.edges_where("eq", source_pred, is_variant)
+    return edges
+
+
+def _ok_none_blocks(body):
+    """blocks that assign Ok(None) to the return place"""
+    out = []
+    for bb in range(body.n):
+        if body.is_cleanup(bb):
+            continue
+        for st in body.blocks[bb]["stmts"]:
+            if st["k"] != "assign" or st["pl"]["l"] != 0 or st["pl"]["p"]:
+                continue
+            rv = st["rv"]
+            if rv["k"] == "aggregate" and rv.get("variant") == "Ok" and rv["ops"]:
+                op = rv["ops"][0]
+                if op["k"] == "const":
+                    if "None" in (op.get("text") or ""):
+                        out.append((bb, st["line"]))
+                else:
+                    os_ = origins(body, op)
+                    if os_ and all((o.kind == "agg" and o.name.endswith("Option::None")) or
+                                   (o.kind == "const" and isinstance(o.name, str) and "None" in o.name) for o in os_):
+                        out.append((bb, st["line"]))
+            elif rv["k"] == "use" and rv["ops"][0]["k"] == "const" and "Ok(None)" in (rv["ops"][0].get("text") or "").replace(" ", ""):
+                out.append((bb, st["line"]))
+    return out
+
+
+def _ok_some_blocks(body):
+    out = []
+    for bb in range(body.n):
+        if body.is_cleanup(bb):
+            continue
+        for st in body.blocks[bb]["stmts"]:
+            if st["k"] != "assign" or st["pl"]["l"] != 0 or st["pl"]["p"]:
+                continue
+            rv = st["rv"]
+            if rv["k"] == "aggregate" and rv.get("variant") == "Ok" and rv["ops"] and rv["ops"][0]["k"] != "const":
+                os_ = origins(body, rv["ops"][0])
+                if any(o.kind == "agg" and o.name.endswith("Option::Some") for o in os_):
+                    out.append((bb, st["line"]))
+    return out
+
+
+def verd1(P, R, L, rule="VERD-1", what=("table", "memtable", "version", "dbget")):
+    is_op = origin_pred_call(GET_OP)
+    targets = []
+    if "table" in what:
+        targets.append(TABLE_GET)
+    if "memtable" in what:
+        impls = [im for im in P.trait_impls.get(MEM_GET, []) if im in P.bodies]
+        if not impls:
+            R.missing_anchor(rule, "impl of MemTable::get")
+        targets += impls
+    for fn in targets:
+        b = P.body(fn)
+        if b is None:
+            R.missing_anchor(rule, fn)
+            continue
+        R.analysed(b)
+        del_edges = variant_edges(P, b, "key::Operation", "Delete", is_op)
+        nones = _ok_none_blocks(b)
+        for (bb, line) in nones:
+            ok = bool(del_edges) and b.must_pass(bb, through_edges=del_edges)
+            R.check(rule, fn + "|deleted-verdict-only-for-tombstone", ok, "%s:%s" % (b.file, line),
+                    "`Ok(None)` (= deleted, stop searching) is produced only on the edge where the found entry's operation is Delete",
+                    "Delete-edges %s" % del_edges)
+        if not nones:
+            R.check(rule, fn + "|has-deleted-verdict", False, where(b), "the lookup can report a tombstone as Ok(None)", "no Ok(None) assignment found")
+        # a value is returned only for the same user key
+        uk = origin_pred_call(GET_USER_KEY)
+        eq_edges = []
+        for c in comparisons(b):
+            lo, ro = c.lhs_origins(), c.rhs_origins()
+            if uk(lo) and uk(ro):
+                eq_edges += [(c.bb, t) for t in (c.true_t if c.op == "eq" else c.false_t if c.op == "ne" else [])]
+        for (bb, line) in _ok_some_blocks(b) + nones:
+            ok = bool(eq_edges) and b.must_pass(bb, through_edges=eq_edges)
+            R.check(rule, fn + "|verdict-only-for-same-user-key", ok, "%s:%s" % (b.file, line),
+                    "a value / tombstone verdict is produced only on the edge where the found user key equals the target user key",
+                    "user-key eq edges %s" % eq_edges)
+    if "table" in what:
+        grd7(P, R, L)
+    if "version" in what:
+        b = P.body(VERSION_GET)
+        if b is None:
+            R.missing_anchor(rule, VERSION_GET)
+        else:
+            R.analysed(b)
+            sites = normal_sites(b, TABLE_CACHE_GET)
+            okall = bool(sites)
+            det = []
+            for s in sites:
+                tests = result_tests(b, s.dest["l"])
+                is_err_payload = lambda os_, _s=s: True
+                knf = variant_edges(P, b, "tables::errors::ReadError", "KeyNotFound",
+                                    lambda os_, _s=s: any(o.kind == "call" and o.name == TABLE_CACHE_GET for o in os_))
+                if not knf:
+                    okall = False
+                    det.append("no KeyNotFound test on the result")
+                nexts = [c.bb for c in b.calls() if "Iterator" in (c.name or "") and c.name.endswith("::next") and in_cycle(b, c.bb)]
+                for (sb, tg) in knf:
+                    r = b.reachable(tg, removed_nodes=nexts)
+                    wr = [x for x in r if any(st["k"] == "assign" and st["pl"]["l"] == 0 for st in b.blocks[x]["stmts"])]
+                    if wr or any(x in r for x in b.return_blocks()):
+                        okall = False
+                        det.append("KeyNotFound edge reaches a write of the return place / return before the next file")
+                # any other Err variant is returned
+                for t in tests:
+                    for e in t.err:
+                        pass
+            R.check(rule, VERSION_GET + "|miss-continues-with-next-file", okall, where(b),
+                    "Err(KeyNotFound) from a table re-enters the file loop without writing the return place", "; ".join(det))
+            # exhausted search: the only Ok written outside the loop carries None... (not found anywhere)
+    if "dbget" in what:
+        g = P.body(GET)
+        if g is None:
+            return R.missing_anchor(rule, GET)
+        for (u, cb) in unlocked_closures(P, L, g):
+            R.analysed(cb)
+            ms = [c for c in cb.calls() if (c.declared_name == MEM_GET or c.name == MEM_GET) and not cb.is_cleanup(c.bb)]
+            vg = normal_sites(cb, VERSION_GET)
+            # classify the memtable lookups by what the receiver is in the parent
+            act, imm = [], []
+            for c in ms:
+                kinds = set()
+                for o in origins(cb, c.args[0]):
+                    if o.kind == "upvar":
+                        for po in upvar_parent_origins(P, cb, o.name):
+                            if po.kind == "call" and po.name in (MEMTABLE, LOAD_FULL):
+                                kinds.add("active")
+                            if "maybe_immutable_memtable" in po.path:
+                                kinds.add("imm")
+                    elif o.kind == "call" and o.name in (MEMTABLE, LOAD_FULL):
+                        kinds.add("active")
+                if kinds == {"active"}:
+                    act.append(c)
+                elif kinds == {"imm"}:
+                    imm.append(c)
+            ok = len(act) == 1 and len(imm) == 1 and len(vg) == 1
+            R.check("ORD-1", GET + "|sources-present", ok, u.where(),
+                    "the read path consults the active memtable, the captured immutable memtable and the captured version",
+                    "active=%d imm=%d version=%d (of %d memtable lookups)" % (len(act), len(imm), len(vg), len(ms)))
+            if not ok:
+                continue
+            a, i, v = act[0], imm[0], vg[0]
+            ok = cb.must_pass(i.bb, through_nodes=[a.bb]) and cb.must_pass(v.bb, through_nodes=[a.bb]) \
+                and v.bb not in cb.reachable(0, removed_nodes=[a.bb]) and i.bb not in cb.reachable(v.target)
+            R.check("ORD-1", GET + "|newest-first", ok, a.where(),
+                    "active memtable lookup dominates the immutable-memtable lookup and Version::get; the immutable memtable is never consulted after the version",
+                    "lines active=%s imm=%s version=%s" % (a.line, i.line, v.line))
+            # a miss in a memtable continues with the next source
+            for c, nxt, nm in ((a, [i.bb, v.bb], "active"), (i, [v.bb], "imm")):
+                tests = result_tests(cb, c.dest["l"])
+                good = bool(tests)
+                for t in tests:
+                    for e in t.err:
+                        if not all(cb.must_pass(r, through_nodes=nxt, start=e) for r in cb.return_blocks()):
+                            good = False
+                R.check(rule, GET + "|%s-miss-continues" % nm, good, c.where(),
+                        "an Err (not found) from the %s memtable lookup always continues to the next source" % nm, "")
+
+
+def upvar_parent_origins(P, cb, upvar_name):
+    """Origins, in the body that constructs closure cb, of the operand captured as `upvar_name`."""
+    out = []
+    parent = P.bodies.get(cb.direct_parent) or P.bodies.get(cb.parent)
+    if parent is None:
+        return out
+    for bb in parent.blocks:
+        for st in bb["stmts"]:
+            if st["k"] == "assign" and st["rv"]["k"] == "aggregate" and st["rv"].get("closure") == cb.path:
+                fs = st["rv"]["fields"]
+                if upvar_name in fs:
+                    out += origins(parent, st["rv"]["ops"][fs.index(upvar_name)])
+    return out
+
+
+def grd7(P, R, L, rule="GRD-7"):
+    b = P.body(TABLE_GET)
+    if b is None:
+        return R.missing_anchor(rule, TABLE_GET)
+    kmm = normal_sites(b, "tables::filter_block::FilterBlockReader::key_may_match")
+    gbr = sites_reaching(P, b, "tables::table::Table::get_block_reader")
+    if not kmm or not gbr:
+        return R.check(rule, TABLE_GET + "|anchors", False, where(b), "Table::get consults the filter and reads a block", "kmm=%d get_block_reader=%d" % (len(kmm), len(gbr)))
+    for k in kmm:
+        tests = _bt(b, k.dest["l"])
+        ok = bool(tests)
+        det = []
+        for t in tests:
+            for e in t.err:   # filter says "definitely not"
+                r = b.reachable(e)
+                if any(g.bb in r for g in gbr):
+                    ok = False
+                    det.append("block read reachable after a filter miss")
+                # must end in Err(KeyNotFound): no Ok written
+                for x in r:
+                    for st in b.blocks[x]["stmts"]:
+                        if st["k"] == "assign" and st["pl"]["l"] == 0 and st["rv"]["k"] == "aggregate" and st["rv"].get("variant") == "Ok":
+                            ok = False
+                            det.append("Ok written after a filter miss (line %s)" % st["line"])
+            for e in t.ok:    # filter says "maybe": must go on to read the block
+                if not all(b.must_pass(rb, through_nodes=[g.bb for g in gbr], start=e) for rb in b.return_blocks()):
+                    ok = False
+                    det.append("a `may match` edge returns without reading the block")
+        R.check(rule, TABLE_GET + "|filter-miss-is-not-found", ok, k.where(),
+                "a filter miss returns Err(KeyNotFound) (never a verdict); a `may match` always goes on to read the block", "; ".join(det))
+        # the probe uses the user key of the lookup key and the handle's offset
+        uk_ok = any(o.kind == "call" and o.name == GET_USER_KEY for o in origins(b, k.args[2]))
+        off_ok = any(o.kind == "call" and o.name == "tables::block_handle::BlockHandle::get_offset" for o in origins(b, k.args[1]))
+        R.check(rule, TABLE_GET + "|filter-probe-arguments", uk_ok and off_ok, k.where(),
+                "the filter is probed with the block handle's offset and the lookup key's user key", "user_key=%s offset=%s" % (uk_ok, off_ok))
+
+
+# ------------------------------------------------------------------------------------------- ROLE-1 / ACC-1 / PAIR-3
+from .. import role  # noqa: E402
+
+ADD_FILE = "versioning::version_manifest::VersionChangeManifest::add_file"
+SET_SMALL = "versioning::file_metadata::FileMetadata::set_smallest_key"
+SET_LARGE = "versioning::file_metadata::FileMetadata::set_largest_key"
+CLONE_RANGE = "versioning::file_metadata::FileMetadata::clone_key_range"
+
+
+def _range_aggregates(body, op, depth=0):
+    """Range{start,end} aggregate statements an operand derives from (through moves)."""
+    out = []
+    if op["k"] not in ("copy", "move") or depth > 6:
+        return out
+    for d in body.defs().get(op["pl"]["l"], []):
+        if d[0] == "stmt":
+            rv = d[3]["rv"]
+            if rv["k"] == "aggregate" and (rv.get("adt") or "").endswith("ops::Range") and len(rv["ops"]) == 2:
+                out.append(d[3])
+            elif rv["k"] == "use":
+                out += _range_aggregates(body, rv["ops"][0], depth + 1)
+    return out
+
+
+def role1(P, R, L, rule="ROLE-1"):
+    sites = [c for c in P.callers_of(ADD_FILE) if not c.body.is_cleanup(c.bb)]
+    R.floor(rule, "add_file call sites in the lib crate", len(sites), 4)
+    for c in sites:
+        b = c.body
+        R.analysed(b)
+        R.call_sites += 1
+        arg = c.args[4]
+        aggs = _range_aggregates(b, arg)
+        key = "%s|add_file-range" % b.path
+        if aggs:
+            for st in aggs:
+                cs_, ce = role.colour(b, st["rv"]["ops"][0]), role.colour(b, st["rv"]["ops"][1])
+                ok = cs_ in ("SMALL", None) and ce in ("LARGE", None)
+                R.check(rule, key, ok, c.where(), "add_file(.., smallest..largest): no LARGE value in the start slot, no SMALL value in the end slot",
+                        "start slot colour=%s, end slot colour=%s" % (cs_, ce))
+        else:
+            os_ = origins(b, arg)
+            ok = any(o.kind == "call" and o.name == CLONE_RANGE for o in os_)
+            R.check(rule, key, ok, c.where(), "the range comes from a Range literal or FileMetadata::clone_key_range", "origins %s" % sorted({repr(o) for o in os_})[:4])
+    # clone_key_range's own literal
+    ck = P.body(CLONE_RANGE)
+    if ck is None:
+        R.missing_anchor(rule, CLONE_RANGE)
+    else:
+        R.analysed(ck)
+        n = 0
+        for bb in ck.blocks:
+            for st in bb["stmts"]:
+                if st["k"] == "assign" and st["rv"]["k"] == "aggregate" and (st["rv"].get("adt") or "").endswith("ops::Range"):
+                    n += 1
+                    cs_, ce = role.colour(ck, st["rv"]["ops"][0]), role.colour(ck, st["rv"]["ops"][1])
+                    R.check(rule, CLONE_RANGE + "|range-literal", cs_ == "SMALL" and ce == "LARGE", where(ck),
+                            "clone_key_range returns smallest..largest", "start=%s end=%s" % (cs_, ce))
+        if not n:
+            R.check(rule, CLONE_RANGE + "|range-literal", False, where(ck), "clone_key_range builds a Range literal", "none found")
+    # add_file's own body: range.start -> set_smallest_key, range.end -> set_largest_key
+    af = P.body(ADD_FILE)
+    if af is None:
+        R.missing_anchor(rule, ADD_FILE)
+    else:
+        R.analysed(af)
+        for setter, want in ((SET_SMALL, "SMALL"), (SET_LARGE, "LARGE")):
+            ss = normal_sites(af, setter)
+            ok = bool(ss) and all(role.colour(af, s.args[1]) == want for s in ss)
+            R.check(rule, ADD_FILE + "|%s" % setter.rsplit("::", 1)[1], ok, where(af),
+                    "%s receives the %s bound of the range" % (setter.rsplit("::", 1)[1], "start" if want == "SMALL" else "end"),
+                    "colours %s" % [role.colour(af, s.args[1]) for s in ss])
+    # the two setters write the field they are named after; the two getters read it
+    for fn, field in ((SET_SMALL, "smallest_key"), (SET_LARGE, "largest_key"),
+                      ("versioning::file_metadata::FileMetadata::smallest_key", "smallest_key"),
+                      ("versioning::file_metadata::FileMetadata::largest_key", "largest_key")):
+        fb = P.body(fn)
+        if fb is None:
+            R.missing_anchor(rule, fn)
+            continue
+        R.analysed(fb)
+        touched = set()
+        for bb in fb.blocks:
+            for st in bb["stmts"]:
+                if st["k"] != "assign":
+                    continue
+                pls = [st["pl"]]
+                rv = st["rv"]
+                if rv["k"] in ("ref", "rawptr"):
+                    pls.append(rv["pl"])
+                pls += [o["pl"] for o in rv.get("ops", []) if o["k"] in ("copy", "move")]
+                for pl in pls:
+                    for e in pl["p"]:
+                        if isinstance(e, dict) and e.get("a") == "versioning::file_metadata::FileMetadata":
+                            touched.add(e["n"])
+        R.check(rule, fn + "|accessor-field", touched == {field}, where(fb), "accessor touches exactly the field `%s`" % field, "touches %s" % sorted(touched))
+    role2_codec(P, R, L)
+
+
+def _dominance_order(body, sites):
+    """order call sites so that earlier ones dominate later ones (straight-line codecs); returns None if not a chain"""
+    order = sorted(sites, key=lambda c: sum(1 for d in sites if body.dominates(d.bb, c.bb)))
+    for i in range(len(order) - 1):
+        if not body.dominates(order[i].bb, order[i + 1].bb):
+            return None
+    return order
+
+
+def role2_codec(P, R, L, rule="ROLE-2"):
+    w = P.body("<std::vec::Vec<u8> as std::convert::From<&versioning::file_metadata::FileMetadata>>::from")
+    if w is None:
+        # name may be printed differently: search
+        for p in P.bodies:
+            if "From<&versioning::file_metadata::FileMetadata>" in p and p.endswith("::from"):
+                w = P.bodies[p]
+    r = P.body("versioning::file_metadata::FileMetadata::deserialize")
+    if w is None or r is None:
+        return R.missing_anchor(rule, "FileMetadata serializer / deserialize")
+    R.analysed(w, r)
+    WLS = "utils::io::WriteHelpers::write_length_prefixed_slice"
+    RLS = "utils::io::ReadHelpers::read_length_prefixed_slice"
+    ws = [c for c in w.calls() if (c.declared_name or "").endswith("write_length_prefixed_slice") and not w.is_cleanup(c.bb)]
+    rs = [c for c in r.calls() if (c.declared_name or "").endswith("read_length_prefixed_slice") and not r.is_cleanup(c.bb)]
+    wo, ro = _dominance_order(w, ws), _dominance_order(r, rs)
+    if not wo or not ro or len(wo) != len(ro) or len(wo) < 2:
+        return R.check(rule, "FileMetadata-codec|key-count", False, where(w), "writer and reader handle the same number (2) of keys in a fixed order",
+                       "writer keys %d reader keys %d" % (len(ws), len(rs)))
+    wcols = [role.colour_of_origins(origins(w, c.args[1], transparent=role.COLOUR_TRANSPARENT | {
+        "<std::vec::Vec<u8> as std::convert::From<&key::InternalKey>>::from", "std::convert::From::from"})) for c in wo]
+    # reader: where does the k-th slice flow?
+    rcols = []
+    for c in ro:
+        col = None
+        for setter, cname in ((SET_SMALL, "SMALL"), (SET_LARGE, "LARGE")):
+            for s in normal_sites(r, setter):
+                os_ = origins(r, s.args[1], transparent=role.COLOUR_TRANSPARENT | {"std::convert::TryFrom::try_from", "<key::InternalKey as std::convert::TryFrom<&[u8]>>::try_from",
+                                                                                 "<key::InternalKey as std::convert::TryFrom<std::vec::Vec<u8>>>::try_from"})
+                if any(o.kind == "call" and o.site is not None and o.site.bb == c.bb for o in os_):
+                    col = cname
+        rcols.append(col)
+    R.check(rule, "FileMetadata-codec|key-order", wcols == rcols and wcols == ["SMALL", "LARGE"], where(w),
+            "the k-th key written has the role of the setter the k-th key read flows into (smallest, then largest)",
+            "writer order %s, reader order %s" % (wcols, rcols))
+    # scalar order: file_number then file_size
+    WV = "write_varint"
+    wv = [c for c in w.calls() if (c.declared_name or "").endswith("write_varint") and not w.is_cleanup(c.bb)]
+    rv_ = [c for c in r.calls() if (c.declared_name or "").endswith("read_varint") and not r.is_cleanup(c.bb)]
+    wvo, rvo = _dominance_order(w, wv), _dominance_order(r, rv_)
+    ok = False
+    det = "writer %d reader %d" % (len(wv), len(rv_))
+    if wvo and rvo and len(wvo) == len(rvo) == 2:
+        wn = [sorted({o.name.rsplit("::", 1)[1] for o in origins(w, c.args[1]) if o.kind == "call"}) for c in wvo]
+        rn = []
+        for c in rvo:
+            sink = None
+            for t in r.calls():
+                if r.is_cleanup(t.bb):
+                    continue
+                if t.name in ("versioning::file_metadata::FileMetadata::new", "versioning::file_metadata::FileMetadata::set_file_size"):
+                    for a in t.args:
+                        if any(o.kind == "call" and o.site is not None and o.site.bb == c.bb for o in origins(r, a)):
+                            sink = t.name.rsplit("::", 1)[1]
+            rn.append(sink)
+        ok = wn == [["file_number"], ["get_file_size"]] and rn == ["new", "set_file_size"]
+        det = "writer %s reader %s" % (wn, rn)
+    R.check(rule, "FileMetadata-codec|scalar-order", ok, where(w), "file number then file size on both sides", det)
+
+
+def acc1(P, R, L, rule="ACC-1"):
+    n = 0
+    for p, b in sorted(P.bodies.items()):
+        accs = role.find_accumulators(b)
+        if not accs:
+            continue
+        R.analysed(b)
+        for a in accs:
+            for (d, ok, how, line) in role.accumulator_guard(b, a):
+                n += 1
+                R.check(rule, "%s|accumulator-colour=%s" % (p, a.colour), ok,
+                        "%s:%s" % (b.file, line or b.line_lo),
+                        "an accumulator over %s bounds is replaced only by a candidate that is %s than it" % (
+                            "largest" if a.colour == "LARGE" else "smallest", "greater" if a.colour == "LARGE" else "smaller"),
+                        "update is %s" % how)
+    R.floor(rule, "min/max accumulators over file bounds", n, 7)
+
+
+def pair3(P, R, L, rule="PAIR-3"):
+    ADD_ENTRY = "tables::table_builder::TableBuilder::add_entry"
+    CURRENT = "iterator::RainDbIterator::current"
+    is_cur = lambda os_: any(o.kind == "call" and (o.name == CURRENT or (o.name or "").endswith("::current")) for o in os_)
+    # (a) memtable flush
+    b = P.body("db::DB::build_table_from_iterator")
+    if b is None:
+        R.missing_anchor(rule, "db::DB::build_table_from_iterator")
+    else:
+        R.analysed(b)
+        ae = normal_sites(b, ADD_ENTRY)
+        ss = normal_sites(b, SET_SMALL)
+        sl = normal_sites(b, SET_LARGE)
+        fin = normal_sites(b, "tables::table_builder::TableBuilder::finalize")
+        ok = bool(ae) and bool(ss) and bool(sl) and bool(fin)
+        det = []
+        if ok:
+            if not all(in_cycle(b, a.bb) for a in ae):
+                ok = False
+                det.append("add_entry is not in the loop")
+            if not all(is_cur(origins(b, s.args[1])) for s in ss) or not all(b.must_pass(a.bb, through_nodes=[s.bb for s in ss]) for a in ae):
+                ok = False
+                det.append("smallest key is not taken from the iterator's current entry before the first add_entry")
+            if any(in_cycle(b, s.bb) for s in ss):
+                ok = False
+                det.append("set_smallest_key is inside the loop")
+            # largest: the value handed to set_largest_key comes from a local assigned, in the loop, from the same current() entry
+            for s in sl:
+                rl = roots(b, s.args[1])
+                good = False
+                for l in rl:
+                    for d in b.defs().get(l, []):
+                        if d[0] == "stmt" and in_cycle(b, d[1]) and not b.is_cleanup(d[1]):
+                            rv = d[3]["rv"]
+                            src = rv["ops"][0] if rv.get("ops") else None
+                            if src is not None and is_cur(origins(b, src)):
+                                # updated on every iteration that adds an entry
+                                if all(b.must_pass(a.bb, through_nodes=[d[1]], start=_loop_head(b, a.bb)) or b.dominates(d[1], a.bb) or b.dominates(a.bb, d[1]) for a in ae):
+                                    good = True
+                if not good:
+                    ok = False
+                    det.append("set_largest_key's argument is not the per-iteration copy of the key that was added")
+                if any(s.bb in b.reachable(0, removed_nodes=[a.bb for a in ae]) and False for a in ae):
+                    pass
+                if in_cycle(b, s.bb):
+                    pass
+            if not all(b.must_pass(f.bb, through_nodes=[s.bb for s in sl]) or all(b.must_pass(x, through_nodes=[s.bb for s in sl], start=f.target) for x in _ok_blocks(b)) for f in fin):
+                ok = False
+                det.append("a successful build can return without set_largest_key")
+        R.check(rule, b.path + "|bounds-from-entries-added", ok, where(b),
+                "smallest = first entry added, largest = last entry added (taken from the same iterator entries that go into the table)", "; ".join(det))
+        # file size recorded after finalize
+        fs_ = normal_sites(b, "versioning::file_metadata::FileMetadata::set_file_size")
+        ok = bool(fs_) and bool(fin) and all(any(ok_guarded(b, s.bb, f)[0] for f in fin) for s in fs_)
+        R.check(rule, b.path + "|size-after-finalize", ok, where(b), "the file size is recorded only over the success edge of TableBuilder::finalize", "")
+    # (b) table compaction
+    ct = P.body(COMPACT_TABLES)
+    cb = None
+    if ct is not None:
+        for (u, c) in unlocked_closures(P, L, ct):
+            if normal_sites(c, ADD_ENTRY):
+                cb = c
+    if cb is None:
+        return R.missing_anchor(rule, "compact_tables merge closure")
+    R.analysed(cb)
+    ae = normal_sites(cb, ADD_ENTRY)
+    ss = normal_sites(cb, SET_SMALL)
+    sl = normal_sites(cb, SET_LARGE)
+    ok = bool(ae) and bool(ss) and bool(sl)
+    det = []
+    if ok:
+        for a in ae:
+            if not cb.must_pass(a.bb, through_nodes=[s.bb for s in sl], start=_loop_head(cb, a.bb)):
+                ok = False
+                det.append("add_entry reachable in an iteration without set_largest_key")
+            ka = {(o.name, o.site.bb if o.site else None) for o in origins(cb, a.args[1], transparent=role.COLOUR_TRANSPARENT | {"std::rc::Rc::new"}) if o.kind == "call"}
+            for s in sl + ss:
+                ks = {(o.name, o.site.bb if o.site else None) for o in origins(cb, s.args[1], transparent=role.COLOUR_TRANSPARENT) if o.kind == "call"}
+                if not (ka & ks):
+                    ok = False
+                    det.append("%s argument does not come from the entry that is added (line %s)" % (s.name.rsplit("::", 1)[1], s.line))
+        # smallest only for the first entry of an output: guarded by get_num_entries() == 0
+        ne = origin_pred_call("tables::table_builder::TableBuilder::get_num_entries")
+        zero = lambda os_: any(o.kind == "const" and o.name == "0" for o in os_)
+        edges = []
+        for c in comparisons(cb):
+            edges += c.edges_where("eq", ne, zero)
+        for s in ss:
+            if not edges or not cb.must_pass(s.bb, through_edges=edges):
+                ok = False
+                det.append("set_smallest_key is not guarded by `get_num_entries() == 0`")
+        for a in ae:
+            for (sb, tg) in edges:
+                if not cb.must_pass(a.bb, through_nodes=[s.bb for s in ss], start=tg):
+                    ok = False
+                    det.append("first entry of an output can be added without set_smallest_key")
+    R.check(rule, cb.path + "|bounds-from-entries-added", ok, where(cb),
+            "every add_entry(k) is accompanied by set_largest_key(k); set_smallest_key(k) happens exactly for the first entry of an output",
+            "; ".join(sorted(set(det))))
+
+
+def _ok_blocks(b):
+    return [bb for bb in range(b.n) if not b.is_cleanup(bb) for st in b.blocks[bb]["stmts"]
+            if st["k"] == "assign" and st["pl"]["l"] == 0 and st["rv"]["k"] == "aggregate" and st["rv"].get("variant") == "Ok"]
+
+
+def _loop_head(b, bb):
+    """a block of the innermost cycle containing bb that dominates bb and is a cycle entry (approximation: the
+    dominator of bb closest to the entry that is still in a cycle with bb)"""
+    idom = b.dominators()
+    x = bb
+    head = bb
+    while x in idom and x != 0:
+        x = idom[x]
+        if bb in b.reachable(x) and x in b.reachable(bb):
+            head = x
+    return head
+
+
+# ------------------------------------------------------------------------------------------- GRD-2 / ORD-7
+SMALLEST_SNAPSHOT = "compaction::state::CompactionState::get_smallest_snapshot"
+SEQ_OF_KEY2 = "key::InternalKey::get_sequence_number"
+IS_BASE_LEVEL = "compaction::manifest::CompactionManifest::is_base_level_for_key"
+STATE_NEW = "compaction::state::CompactionState::new"
+
+
+def merge_closure(P, L):
+    ct = P.body(COMPACT_TABLES)
+    if ct is None:
+        return None, None
+    for (u, c) in unlocked_closures(P, L, ct):
+        if normal_sites(c, "tables::table_builder::TableBuilder::add_entry"):
+            return ct, c
+    return ct, None
+
+
+def grd2_retention(P, R, L, rule="GRD-2"):
+    ct, cb = merge_closure(P, L)
+    if cb is None:
+        return R.missing_anchor(rule, "compact_tables merge closure")
+    R.analysed(cb)
+    # the drop flag: a const-assigned bool that steers add_entry
+    ae = normal_sites(cb, "tables::table_builder::TableBuilder::add_entry")
+    flags = [l for l in cb.flag_locals() if cb.local_name(l) is not None]
+    drop_flag = None
+    for l in flags:
+        tests = _bt(cb, l)
+        if tests and all(cb.must_pass(a.bb, through_edges=[e for t in tests for e in t.err_edges()]) for a in ae):
+            drop_flag = l
+    if drop_flag is None:
+        return R.check(rule, cb.path + "|drop-flag", False, where(cb),
+                       "add_entry is reachable only when the per-entry drop decision is false", "no constant-assigned bool guards add_entry on its false edge")
+    R.check(rule, cb.path + "|drop-flag", True, where(cb), "add_entry is reachable only when the per-entry drop decision is false",
+            "flag `%s`" % cb.local_name(drop_flag))
+    stores = []
+    for bb in range(cb.n):
+        if cb.is_cleanup(bb):
+            continue
+        for st in cb.blocks[bb]["stmts"]:
+            if st["k"] == "assign" and st["pl"]["l"] == drop_flag and not st["pl"]["p"] and st["rv"]["ops"][0].get("val") == "1":
+                stores.append((bb, st["line"]))
+    snap = origin_pred_call(SMALLEST_SNAPSHOT)
+    seqk = origin_pred_call(SEQ_OF_KEY2)
+    # last_sequence_for_key: a local with a constant def and a def from get_sequence_number
+    last_locals = set()
+    for l, dl in cb.defs().items():
+        has_const = any(d[0] == "stmt" and d[3]["rv"]["k"] == "use" and d[3]["rv"]["ops"][0]["k"] == "const" for d in dl)
+        has_seq = any((d[0] == "call" and strip_generics(d[3].get("resolved") or d[3].get("callee")) == SEQ_OF_KEY2) or
+                      (d[0] == "stmt" and d[3]["rv"]["k"] == "use" and seqk(origins(cb, d[3]["rv"]["ops"][0]))) for d in dl)
+        if has_const and has_seq and cb.local_ty(l) == "u64":
+            last_locals.add(l)
+    is_last = lambda op: bool(roots(cb, op) & last_locals) if op["k"] in ("copy", "move") else False
+    e_hidden, e_seq_le = [], []
+    for c in comparisons(cb):
+        lo, ro = c.lhs_origins(), c.rhs_origins()
+        if snap(ro) and is_last(c.lhs):
+            e_hidden += _edges_rel(c, "le", lhs_is_a=True)
+        elif snap(lo) and is_last(c.rhs):
+            e_hidden += _edges_rel(c, "le", lhs_is_a=False)
+        elif snap(ro) and seqk(lo) and not is_last(c.lhs):
+            e_seq_le += _edges_rel(c, "le", lhs_is_a=True)
+        elif snap(lo) and seqk(ro) and not is_last(c.rhs):
+            e_seq_le += _edges_rel(c, "le", lhs_is_a=False)
+    e_delete = variant_edges(P, cb, "key::Operation", "Delete", origin_pred_call(GET_OP))
+    e_base = []
+    for c in normal_sites(cb, IS_BASE_LEVEL):
+        for t in _bt(cb, c.dest["l"]):
+            e_base += t.ok_edges()
+    kinds = {"hidden": 0, "tombstone": 0}
+    for (bb, line) in stores:
+        hidden = bool(e_hidden) and cb.must_pass(bb, through_edges=e_hidden)
+        tomb = bool(e_delete) and bool(e_seq_le) and bool(e_base) and cb.must_pass(bb, through_edges=e_delete) and \
+            cb.must_pass(bb, through_edges=e_seq_le) and cb.must_pass(bb, through_edges=e_base)
+        k = "hidden" if hidden else "tombstone" if tomb else None
+        if k:
+            kinds[k] += 1
+        R.check(rule, cb.path + "|drop-decision", k is not None, "%s:%s" % (cb.file, line),
+                "an entry is dropped only if `last sequence for this key <= smallest snapshot`, or it is a Delete with "
+                "`sequence <= smallest snapshot` at the base level for its key",
+                "guard: %s (hidden-edges %d, delete-edges %d, seq-edges %d, base-edges %d)" % (k, len(e_hidden), len(e_delete), len(e_seq_le), len(e_base)))
+    R.check(rule, cb.path + "|both-rules-present", kinds["hidden"] >= 1 and kinds["tombstone"] >= 1, where(cb),
+            "both retention rules exist (shadowed entries and obsolete tombstones)", str(kinds))
+    # last_sequence_for_key bookkeeping: reset on user-key change, updated from the current key before the iterator advances
+    ok_reset = False
+    ok_update = False
+    for l in last_locals:
+        consts_in, consts_out = set(), set()
+        for d in cb.defs().get(l, []):
+            if d[0] == "stmt" and d[3]["rv"]["k"] == "use" and d[3]["rv"]["ops"][0]["k"] == "const" and not cb.is_cleanup(d[1]):
+                (consts_in if in_cycle(cb, d[1]) else consts_out).add(d[3]["rv"]["ops"][0].get("val"))
+        # reset inside the loop to the same sentinel it starts with (MAX_SEQUENCE_NUMBER)
+        if consts_in and consts_in == consts_out and len(consts_in) == 1:
+            ok_reset = True
+        upd = [d[1] for d in cb.defs().get(l, []) if in_cycle(cb, d[1]) and (
+            (d[0] == "call" and strip_generics(d[3].get("resolved") or d[3].get("callee")) == SEQ_OF_KEY2) or
+            (d[0] == "stmt" and d[3]["rv"]["k"] == "use" and d[3]["rv"]["ops"][0]["k"] != "const"))]
+        nxt = [c for c in cb.calls() if not cb.is_cleanup(c.bb) and in_cycle(cb, c.bb) and (c.name or "").endswith("::next") and "MergingIterator" in (c.name or "")]
+        if upd and nxt and all(cb.must_pass(n.bb, through_nodes=upd, start=_loop_head(cb, n.bb)) for n in nxt):
+            ok_update = True
+        # the update comes after the decision (the decision must see the previous entry's sequence)
+        for (bb, line) in stores:
+            if any(bb in cb.reachable(u, stop_nodes=[n.bb for n in nxt]) and bb != u for u in upd):
+                ok_update = False
+    R.check(rule, cb.path + "|last-sequence-bookkeeping", ok_reset and ok_update, where(cb),
+            "last_sequence_for_key is reset to MAX_SEQUENCE_NUMBER inside the loop and set from the current key on every iteration, after the drop decision",
+            "reset=%s update=%s" % (ok_reset, ok_update))
+
+
+def _edges_rel(c, rel, lhs_is_a):
+    from ..rules import SWAP, NEG, implies
+    op = c.op if lhs_is_a else SWAP[c.op]
+    out = []
+    if implies(op, rel):
+        out += [(c.bb, t) for t in c.true_t]
+    if implies(NEG[op], rel):
+        out += [(c.bb, t) for t in c.false_t]
+    return out
+
+
+def ord7_smallest_snapshot(P, R, L, rule="ORD-7"):
+    ct = P.body(COMPACT_TABLES)
+    if ct is None:
+        return R.missing_anchor(rule, COMPACT_TABLES)
+    R.analysed(ct)
+    from ..dataflow import TRANSPARENT
+    T2 = TRANSPARENT | {"snapshots::Snapshot::sequence_number", "snapshots::InnerSnapshot::sequence_number"}
+    news = normal_sites(ct, STATE_NEW)
+    emp = [c for c in ct.calls() if c.name == "snapshots::SnapshotList::is_empty" and not ct.is_cleanup(c.bb)]
+    if not news or not emp:
+        return R.check(rule, COMPACT_TABLES + "|anchors", False, where(ct), "CompactionState::new and snapshots.is_empty() present",
+                       "new=%d is_empty=%d" % (len(news), len(emp)))
+    e_empty, e_nonempty = [], []
+    for e in emp:
+        for t in _bt(ct, e.dest["l"]):
+            e_empty += t.ok_edges()
+            e_nonempty += t.err_edges()
+    seen_kinds = set()
+    for n in news:
+        os_ = origins(ct, n.args[1], transparent=T2)
+        names = {o.name for o in os_ if o.kind == "call"}
+        if names == {"snapshots::SnapshotList::oldest"}:
+            ok = ct.must_pass(n.bb, through_edges=e_nonempty)
+            seen_kinds.add("oldest")
+            req = "the oldest live snapshot bounds what may be dropped (non-empty snapshot list)"
+        elif names == {PREV_SEQ}:
+            ok = ct.must_pass(n.bb, through_edges=e_empty)
+            seen_kinds.add("last")
+            req = "without snapshots the last published sequence bounds what may be dropped"
+        else:
+            ok = False
+            req = "smallest snapshot comes from SnapshotList::oldest (snapshots live) or get_prev_sequence_number (none)"
+        R.check(rule, COMPACT_TABLES + "|smallest-snapshot-source", ok, n.where(), req, "origins %s" % sorted(names))
+    R.check(rule, COMPACT_TABLES + "|both-sources", seen_kinds == {"oldest", "last"}, where(ct), "both cases are handled", str(sorted(seen_kinds)))
+    for n in news:
+        R.check(rule, COMPACT_TABLES + "|captured-under-mutex", L.site_state(n) == "held", n.where(),
+                "the smallest snapshot is computed while the DB mutex is held", L.site_state(n))
+    # SnapshotList::oldest really is the head (smallest sequence) - structural: it reads the list head, newest the tail
+    so = P.body("snapshots::SnapshotList::oldest")
+    sn = P.body("snapshots::SnapshotList::newest")
+    if so is not None and sn is not None:
+        R.analysed(so, sn)
+        ho = {c.name.rsplit("::", 1)[1] for c in so.calls() if "linked_list" in (c.name or "")}
+        hn = {c.name.rsplit("::", 1)[1] for c in sn.calls() if "linked_list" in (c.name or "")}
+        R.check(rule, "snapshots::SnapshotList|oldest-vs-newest", ho != hn and bool(ho) and bool(hn), where(so),
+                "oldest() and newest() read opposite ends of the snapshot list", "oldest uses %s, newest uses %s" % (sorted(ho), sorted(hn)))
